@@ -1329,6 +1329,53 @@ def child_case(st, case):
     return rep.result()
 
 
+# A complex value passed as the *first call* into a freshly imported API module, to each of
+# four functions whose complex parameter sits at a different position of the module's type
+# table (the wrapper's type slot for it must be usable whichever function is built first).
+CX_CDEF = ("float cxa(int a, float _Complex x); float cxb(float _Complex x, int b); "
+           "double cxc(int a, double _Complex x); double cxd(double _Complex x, double _Complex y);")
+CX_SRC = ("#include <complex.h>\n"
+          "float cxa(int a, float _Complex x) { return crealf(x) * 4 + cimagf(x) + a; }\n"
+          "float cxb(float _Complex x, int b) { return crealf(x) * 4 + cimagf(x) + b; }\n"
+          "double cxc(int a, double _Complex x) { return creal(x) * 4 + cimag(x) + a; }\n"
+          "double cxd(double _Complex x, double _Complex y) { return creal(x) * 4 + cimag(y); }\n")
+CX_CALLS = [('cxa', '(16, 2+3j)', 27.0), ('cxb', '(2+3j, 16)', 27.0), ('cxc', '(16, 2+3j)', 27.0),
+            ('cxd', '(2+3j, 5+7j)', 15.0)]
+
+
+def finalize(ctx, setup):
+    import subprocess
+    from vlib import build
+    d = os.path.join(ctx.tmp, 'cxmod')
+    res = modbuild.build_modules(ctx, [{'name': '_c05cx', 'kind': 'api', 'cdef': CX_CDEF,
+                                        'source': CX_SRC, 'dir': d}])['_c05cx']
+    if not res['ok']:
+        ctx.inconclusive('complex first-call module does not build: ' + res['error'][-300:])
+        return
+    env = build.child_env('plain')
+    env['PYTHONPATH'] = d + os.pathsep + env['PYTHONPATH']
+    for name, args, want in CX_CALLS:
+        code = 'import _c05cx; print(repr(_c05cx.lib.%s%s))' % (name, args)
+        try:
+            p = subprocess.run(build.python_cmd('plain') + ['-c', code], env=env, cwd=d,
+                               stdout=subprocess.PIPE, stderr=subprocess.PIPE, timeout=300)
+        except subprocess.TimeoutExpired:
+            ctx.inconclusive('complex first-call probe timed out (watchdog)')
+            continue
+        case = {'complex_first_call': name}
+        ctx.case(('complex-first-call', name), sample={'first_call': name + args})
+        ctx.count('complex_argument_as_first_call')
+        out = p.stdout.decode(errors='replace').strip()
+        if p.returncode != 0:
+            ctx.violation('complex-argument-first-call:crash', 'lib.%s%s as the first call into a '
+                          'fresh API module: rc=%s %s' % (name, args, p.returncode,
+                                                          p.stderr.decode(errors='replace')[-300:]),
+                          case)
+        elif out != repr(want):
+            ctx.violation('complex-argument-first-call:value', 'lib.%s%s as the first call gave %s, '
+                          'C computes %r' % (name, args, out, want), case)
+
+
 def judge(ctx, setup, case, obs):
     def rp(detail):
         c = dict(case)
